@@ -58,6 +58,10 @@ class BuildError(Exception):
     pass
 
 
+class HarnessAbort(BaseException):
+    """An exception of harness code raised inside user code of a step; never attributed to the engine."""
+
+
 # --------------------------------------------------------------------------- build
 
 
@@ -325,6 +329,7 @@ class Task:
         self.overlaps = set()
         self.steps = 0
         self.before = set()  # queries evaluated (started) before this task first ran
+        self.reentrant = False  # pre-empted inside a step, or stepped from inside another task's step
 
 
 def query_var_ids(scenario: Dict, qd: Dict) -> set:
@@ -416,8 +421,15 @@ def execute_c03(scenario: Dict) -> Dict:
     # references first (each on its own fresh build), twice to detect order instability
     refs: Dict[int, Dict] = {}
     unstable = set()
-    used_q = sorted({op[2] for op in scenario["ops"] if op[0] == "start" and op[2] < nq}
-                    | {op[1] for op in scenario["ops"] if op[0] == "the" and op[1] < nq})
+    def all_ops(ops):
+        for op in ops:
+            yield op
+            if op[0] == "step" and len(op) > 2 and op[2]:
+                for _, nested in op[2]:
+                    yield from all_ops(nested)
+
+    used_q = sorted({op[2] for op in all_ops(scenario["ops"]) if op[0] == "start" and op[2] < nq}
+                    | {op[1] for op in all_ops(scenario["ops"]) if op[0] == "the" and op[1] < nq})
     max_events = 0
     for qi in used_q:
         r1 = isolated_reference(scenario, qi)
@@ -498,8 +510,10 @@ def execute_c03(scenario: Dict) -> Dict:
             "overlap": bool(task.overlaps),
             "shares": share,
             "same_query_overlap": same_query_overlap,
+            "same_query_overlap_tasks": sorted(o for o in task.overlaps if tasks[o].qi == task.qi),
             "shared_node_overlap": expression_overlap,
             "reevaluation": task.qi in task.before,
+            "reentrant": task.reentrant,
             "domain_kinds": kinds,
             "failure": failure,
         }
@@ -550,20 +564,55 @@ def execute_c03(scenario: Dict) -> Dict:
             task.diverged = True
             verdicts.append(kernel.verdict("C03.R3", f"task {task.tid} of query {task.qi} raised {end} after {n} results, isolated evaluation: {ref['end']} after {rn}", **features_for(task, end.replace("exc:", "exception:"))))
 
-    def step(task: Task) -> bool:
-        """One next(); returns False when the task cannot be stepped any more."""
-        if task.state not in ("new", "live"):
+    executing = []  # tasks whose generator is currently running (a generator cannot be re-entered)
+
+    def step(task: Task, preempt=None) -> bool:
+        """
+        One next(); returns False when the task cannot be stepped any more.
+        preempt = [[k, [ops...]], ...]: when the k-th user-code event of this step fires, the nested ops (steps of
+        OTHER tasks) run before the event returns - what happens when a property or predicate itself runs a query.
+        """
+        if task.state not in ("new", "live") or task in executing:
             return False
         if task.state == "new":
             task.state = "live"
             task.before = set(evaluated_before)
             evaluated_before.add(task.qi)
         note_overlap(task)
+        outer_phase, outer_events, outer_hook = mon.phase, mon.step_events, mon.hook
         mon.phase = f"STEP{task.tid}"
         mon.step_events = 0
         mon.fuse = fuse
         task.steps += 1
         counters.inc("task_steps")
+        if preempt and not executing:
+            plan = {int(k): ops for k, ops in preempt}
+            seen = [0]
+
+            def hook(kind, detail):
+                if kind in ("pull", "pull_end"):
+                    # inside a domain stream the shared source generator is executing; a stream that re-enters its
+                    # own consumers is not the scenario (a property or predicate running a query is)
+                    return
+                seen[0] += 1
+                nested = plan.pop(seen[0], None)
+                if nested:
+                    counters.inc("fault.reentrant_preemption")
+                    task.reentrant = True
+                    mon.hook = None
+                    saved = (mon.phase, mon.step_events)
+                    try:
+                        for nop in nested:
+                            if nop[0] in ("step", "drain", "start") and (nop[0] == "start" or nop[1] != task.tid):
+                                do_op(nop, nested=True)
+                    except Exception as e:  # a defect of the harness must not look like an exception of user code
+                        raise HarnessAbort(f"{type(e).__name__}: {e}") from e
+                    mon.phase, mon.step_events = saved
+                    mon.fuse = fuse
+                    mon.hook = hook if plan else None
+
+            mon.hook = hook
+        executing.append(task)
         try:
             value = next(task.it)
         except StopIteration:
@@ -584,26 +633,36 @@ def execute_c03(scenario: Dict) -> Dict:
             check_end(task, "exc:" + exc_name(e))
             return False
         finally:
-            mon.phase = "IDLE"
-            mon.fuse = None
+            executing.remove(task)
+            mon.hook = outer_hook
+            if executing:
+                mon.phase, mon.step_events = outer_phase, outer_events
+            else:
+                mon.phase = "IDLE"
+                mon.fuse = None
         value = built.norm(value)
         log.add("res", task.tid, value)
         check_result(task, value)
         return True
 
-    for op in scenario["ops"]:
+    def do_op(op, nested=False):
+        nonlocal nontrivial
         kind = op[0]
+        if nested:
+            for t in tasks.values():
+                if t in executing:
+                    t.reentrant = True
         if kind == "start":
             _, tid, qi = op
             if tid in tasks or qi >= nq or scenario["queries"][qi].get("q") == "the":
                 counters.inc("ops_skipped")
-                continue
+                return
             mon.phase = "CALL"
             try:
                 it = built.queries[qi].evaluate()
             except Exception as e:
                 log.add("start-exc", tid, exc_name(e))
-                continue
+                return
             finally:
                 mon.phase = "IDLE"
             tasks[tid] = Task(tid, qi, it)
@@ -616,10 +675,12 @@ def execute_c03(scenario: Dict) -> Dict:
             t = tasks.get(op[1])
             if t is None or t.state not in ("new", "live"):
                 counters.inc("ops_skipped")
-                continue
+                return
             counters.inc("op." + kind)
+            if nested:
+                t.reentrant = True
             if kind == "step":
-                step(t)
+                step(t, op[2] if len(op) > 2 else None)
             else:
                 n = 0
                 while step(t) and n < STEP_CAP:
@@ -628,7 +689,7 @@ def execute_c03(scenario: Dict) -> Dict:
             t = tasks.get(op[1])
             if t is None or t.state not in ("new", "live"):
                 counters.inc("ops_skipped")
-                continue
+                return
             mon.phase = "CLOSE"
             try:
                 t.it.close()
@@ -643,7 +704,7 @@ def execute_c03(scenario: Dict) -> Dict:
             t = tasks.get(op[1])
             if t is None or t.state not in ("new", "live"):
                 counters.inc("ops_skipped")
-                continue
+                return
             was_live = t.state == "live"
             if kind == "dropcycle":
                 box = [t.it]
@@ -669,7 +730,7 @@ def execute_c03(scenario: Dict) -> Dict:
             qi = op[1]
             if qi >= nq or scenario["queries"][qi].get("q") != "the":
                 counters.inc("ops_skipped")
-                continue
+                return
             counters.inc("op.the")
             if qi in evaluated_before:
                 nontrivial = True
@@ -709,6 +770,15 @@ def execute_c03(scenario: Dict) -> Dict:
         else:
             counters.inc("ops_skipped")
 
+    for op in scenario["ops"]:
+        do_op(op)
+
+    # the set of evaluations that were live together with a victim is only complete at the end of the run
+    for v in verdicts:
+        t = tasks.get(v["features"].get("task"))
+        if t is not None:
+            v["features"]["same_query_overlap_tasks"] = sorted(o for o in t.overlaps if tasks[o].qi == t.qi)
+            v["features"]["same_query_overlap"] = bool(v["features"]["same_query_overlap_tasks"]) or v["features"].get("same_query_overlap", False)
     counters.inc("user_events", mon.seq)
     if max_share != "none":
         counters.inc("probe.overlap_" + max_share)
@@ -776,7 +846,7 @@ def same_class(a: Dict, b: Dict) -> bool:
     fa, fb = a["features"], b["features"]
     if a["rule"] == "C03.R3" and fa.get("failure") != fb.get("failure"):
         return False
-    keys = ("rule_query", "same_query_overlap", "shared_node_overlap", "overlap", "phase", "via")
+    keys = ("rule_query", "same_query_overlap", "shared_node_overlap", "reentrant", "overlap", "phase", "via")
     return all(fa.get(k) == fb.get(k) for k in keys)
 
 
@@ -813,20 +883,25 @@ def neutralise(scenario: Dict, name: str, verdict: Dict) -> Optional[Dict]:
     if name != "serialise_same_query":
         return None
     target = verdict["features"].get("task")
-    qi = verdict["features"].get("query")
     ops = scenario["ops"]
-    spans = {}
-    for pos, op in enumerate(ops):
-        if op[0] == "start" and op[1] not in spans:
-            spans[op[1]] = [pos, len(ops), op[2]]
-        elif op[0] in ("close", "drop", "dropcycle", "drain") and op[1] in spans and spans[op[1]][1] == len(ops):
-            spans[op[1]][1] = pos
-    if target not in spans:
+    # the run itself recorded which evaluations of the same query were live together with the victim
+    remove = set(verdict["features"].get("same_query_overlap_tasks") or [])
+    remove.discard(target)
+    if not remove:
         return None
-    ts, te, _ = spans[target]
-    remove = {t for t, (s, e, q) in spans.items() if t != target and q == qi and not (e < ts or s > te)}
+
+    def strip(op_list):
+        out = []
+        for op in op_list:
+            if op[0] in ("start", "step", "drain", "close", "drop", "dropcycle") and op[1] in remove:
+                continue
+            if op[0] == "step" and len(op) > 2 and op[2]:
+                op = [op[0], op[1], [[k, strip(nested)] for k, nested in op[2]]]
+            out.append(op)
+        return out
+
     out = dict(scenario)
-    out["ops"] = [op for op in ops if not (op[0] in ("start", "step", "drain", "close", "drop", "dropcycle") and op[1] in remove)]
+    out["ops"] = strip(ops)
     return out
 
 
